@@ -223,26 +223,80 @@ def ref_outcome(data):
         return None, exc
 
 
+def check_value(ctx, tls, kind, v, key, corr=True):
+    """encode with the library, compare with the RFC 8446 reference encoder, decode back with the
+    library and with the reference decoder"""
+    data = push(tls, kind, v, cap=(1 << 24) + 70000)
+    ctx.count(("rt", kind, key), True)
+    want = REF.encode(kind, to_ref(kind, v))
+    if data != want:
+        ctx.witness(f"push_{kind} bytes differ from the RFC 8446 reference encoder", {"value": repr(v)[:400],
+                    "aioquic": data.hex()[:4000], "reference": want.hex()[:4000]}, {"oracle": "encode-differs", "message": kind})
+        return
+    st, back = parse_outcome(tls, kind, data)
+    if corr:
+        CORR.append((data.hex(), st))
+    if st != "ok" or back != v:
+        ctx.witness(f"pull_{kind}(push_{kind}(v)) != v ({len(data)}-byte message): {back!r}"[:300],
+                    {"value": repr(v)[:400], "bytes": data.hex()[:4000], "length": len(data),
+                     "rebuild": f"checks.c17_tls: {key}"}, {"oracle": "roundtrip", "message": kind})
+    k2, d2 = ref_outcome(data)
+    if k2 != kind or norm(kind, d2) != norm(kind, to_ref(kind, v)):
+        ctx.witness(f"reference decoder reads push_{kind}(v) differently", {"value": repr(v)[:400], "bytes": data.hex()[:4000]},
+                    {"oracle": "cross-decode", "message": kind})
+
+
 def roundtrips(ctx, tls, r, n):
     for kind in KINDS:
         for i in range(n):
-            v = gen(tls, r, kind)
-            data = push(tls, kind, v)
-            ctx.count(("rt", kind, i), True)
-            want = REF.encode(kind, to_ref(kind, v))
-            if data != want:
-                ctx.witness(f"push_{kind} bytes differ from the RFC 8446 reference encoder", {"value": repr(v)[:400],
-                            "aioquic": data.hex(), "reference": want.hex()}, {"oracle": "encode-differs", "message": kind})
-                continue
-            st, back = parse_outcome(tls, kind, data)
-            CORR.append((data.hex(), st))
-            if st != "ok" or back != v:
-                ctx.witness(f"pull_{kind}(push_{kind}(v)) != v: {back!r}"[:300], {"value": repr(v)[:400], "bytes": data.hex()},
-                            {"oracle": "roundtrip", "message": kind})
-            k2, d2 = ref_outcome(data)
-            if k2 != kind or norm(kind, d2) != norm(kind, to_ref(kind, v)):
-                ctx.witness(f"reference decoder reads push_{kind}(v) differently", {"value": repr(v)[:400], "bytes": data.hex()},
-                            {"oracle": "cross-decode", "message": kind})
+            check_value(ctx, tls, kind, gen(tls, r, kind), i)
+
+
+def prefix_boundaries(tls, thorough):
+    """every length prefix of every message at the edges of its width: for an n-byte prefix the lengths
+    0, 1, 255, 256, 65535, 65536, 65537 (and 2^24-1 in the thorough tier) where n allows, so that 3-byte
+    prefixes (message bodies, certificate_list, cert_data) are exercised beyond 2^16"""
+    def pat(n, salt=0):
+        return bytes((i * 31 + salt) % 251 for i in range(n)) if n < 4096 else bytes([salt % 251]) * n
+    l1 = [0, 1, 255]
+    l2 = l1 + [256, 65535]
+    l3 = l2 + [65536, 65537, 70000] + ([(1 << 24) - 1 - 16] if thorough else [])
+    for n in l3:                                   # 3-byte message length only
+        yield "finished", tls.Finished(verify_data=pat(n, 1)), f"finished/verify_data={n}"
+    for n in l2:                                   # 2-byte signature; body = n + 4
+        yield "certificate_verify", tls.CertificateVerify(algorithm=0x0804, signature=pat(n, 2)), f"cv/signature={n}"
+    for n in l3:                                   # 3-byte cert_data inside 3-byte certificate_list inside the body
+        yield "certificate", tls.Certificate(request_context=b"", certificates=[(pat(n, 3), b"")]), f"cert/cert_data={n}"
+    for n in l2:
+        yield "certificate", tls.Certificate(request_context=pat(n % 256, 4), certificates=[(b"\x01", pat(n, 5))]), \
+            f"cert/entry_extensions={n}"
+    for k in (1, 2, 300):                          # certificate_list >= 64 KiB made of many entries
+        yield "certificate", tls.Certificate(request_context=b"", certificates=[(pat(300, k), b"")] * k), f"cert/entries={k}"
+    for n in l2:
+        yield "new_session_ticket", tls.NewSessionTicket(ticket_lifetime=1, ticket_age_add=2, ticket_nonce=pat(n % 256, 6),
+                                                         ticket=pat(n, 7)), f"nst/ticket={n}"
+    for n in l1 + [256, 65531]:                    # one unknown extension filling the 2-byte extensions block
+        ext = [(0xFFA5, pat(n, 8))]
+        yield "encrypted_extensions", tls.EncryptedExtensions(other_extensions=ext), f"ee/ext_data={n}"
+        yield "certificate_request", tls.CertificateRequest(request_context=b"", signature_algorithms=[0x0804],
+                                                            other_extensions=[(0xFFA5, pat(min(n, 65000), 9))]), f"cr/ext_data={n}"
+        yield "server_hello", tls.ServerHello(random=pat(32), legacy_session_id=pat(32), cipher_suite=0x1301,
+                                              compression_method=0, other_extensions=[(0xFFA5, pat(n, 10))]), f"sh/ext_data={n}"
+        yield "client_hello", tls.ClientHello(random=pat(32), legacy_session_id=pat(n % 33), cipher_suites=[0x1301] * (n % 9),
+                                              legacy_compression_methods=[0], key_share=None, signature_algorithms=None,
+                                              supported_groups=None, supported_versions=None,
+                                              other_extensions=[(0xFFA5, pat(n, 11))]), f"ch/ext_data={n}"
+
+
+def length_boundaries(ctx, tls, thorough):
+    for kind, v, key in prefix_boundaries(tls, thorough):
+        try:
+            # messages above 100 kB are compared on the implementation only (not sent through the driver)
+            big = key.endswith(str((1 << 24) - 1 - 16))
+            check_value(ctx, tls, kind, v, key, corr=not big)
+        except Exception as exc:   # the library cannot encode its own well-formed value
+            ctx.witness(f"push_{kind} raised {type(exc).__name__}: {exc} on a well-formed value ({key})",
+                        {"rebuild": f"checks.c17_tls: {key}"}, {"oracle": "encode-raises", "message": kind})
 
 
 CORR = []      # (hex, implementation outcome) for the Lean acceptance model
@@ -357,6 +411,7 @@ def run(ctx, tier):
     thorough = tier == "thorough"
     r = rng.make("c17-tls")
     roundtrips(ctx, tls, r, 1500 if thorough else 150)
+    length_boundaries(ctx, tls, thorough)
     extension_lengths(ctx, tls, r)
     arbitrary(ctx, tls, r, 20000 if thorough else 1200)
     correspond(ctx)
@@ -390,7 +445,7 @@ def main(tier):
 
 
 TLS_ORACLES = {"encode-differs", "roundtrip", "cross-decode", "parse-escape", "accepts-malformed", "no-reencode",
-               "reencode-differs", "extension-length"}
+               "reencode-differs", "extension-length", "encode-raises"}
 
 
 def owns(d):
